@@ -26,7 +26,10 @@ META = dict(
          "(AddRoutes/bindRoutes, WithNotFoundHandler).",
     note="Trusted: TLC, net/http/httptest. Not generated: patterns repeating a parameter name (statement silent on "
          "which occurrence wins), unclean pattern spellings at registration, '..' in request paths, "
-         "SetNotAllowedHandler/CORS. Supported methods = the seven accepted by validMethod (DELETE, GET, HEAD, OPTIONS, PATCH, POST, PUT; all of them registered and requested in the methods7 families), unsupported method = 'FOO'. Bounds: literals {a,b}, request tokens {a,b,c}, "
+         "SetNotAllowedHandler/CORS. Supported methods = the seven accepted by validMethod (DELETE, GET, HEAD, OPTIONS, PATCH, POST, PUT; all of them registered and requested in the methods7 families); unsupported method = 'FOO', and in the verbs families 18 names: the lower-case "
+         "and capitalised spelling of each supported verb, '', CONNECT, TRACE, FOO, each registered with '/', '/a', '/:x' "
+         "before and after accepted routes of all seven verbs (rejected at Handle, absent from every later answer). "
+         "Requests use upper-case verbs and FOO only. Bounds: literals {a,b}, request tokens {a,b,c}, "
          "depth <= 3, <= 3 routes exhaustive (4 in thorough), <= 8-10 routes over 3 methods in simulation.",
     technique="TLA+ reference matcher + TLC-enumerated (table, request) cases replayed on the real router",
     design="4/C03")
@@ -53,6 +56,14 @@ REQ4 = '{"GET","POST","PUT","DELETE"}'
 # every method patRouter.validMethod accepts for registration; requests also use the unsupported one
 ALL7 = '{"DELETE","GET","HEAD","OPTIONS","PATCH","POST","PUT"}'
 REQ8 = '{"DELETE","GET","HEAD","OPTIONS","PATCH","POST","PUT","FOO"}'
+# The unsupported-method alphabet.  HTTP method names are case-sensitive tokens and patRouter keys its trees and
+# looks requests up by the exact string, so every other spelling of a supported verb is a different, unsupported
+# method: the lower-case and the capitalised spelling of each of the seven, plus names that are not verbs of the
+# router at all (the empty name, standard methods validMethod does not list, an invented one).
+VERBS7 = ["DELETE", "GET", "HEAD", "OPTIONS", "PATCH", "POST", "PUT"]
+CASE_VARIANTS = sorted({f(v) for v in VERBS7 for f in (str.lower, str.capitalize)})
+OTHER_NAMES = ["", "CONNECT", "FOO", "TRACE"]
+BADV = "{" + ",".join(json.dumps(m) for m in CASE_VARIANTS + OTHER_NAMES) + "}"
 
 PLANS = {
     # single method, depth 3: literal/parameter alternatives with shared prefixes (backtracking)
@@ -65,6 +76,14 @@ PLANS = {
     # every supported method both as a route's method and as a request method (405 / Allow over all trees)
     "methods7": consts(ALL7, '{"FOO"}', REQ8, '{"a"}', PAR3, 1, '{"a","c"}', '{"a"}', 3, badpats="{<<>>}"),
     "methods7d2": consts(ALL7, '{"FOO"}', REQ8, '{"a","b"}', PAR3, 2, '{"a","b","c"}', '{"a"}', 2, badpats="{<<>>}"),
+    # registration alphabet of method names: every supported verb next to 18 unsupported names (case variants of
+    # the supported verbs, "", CONNECT, TRACE, FOO), each offered with the patterns '/', '/a', '/:x'; free
+    # registration order (a rejected name before and after the accepted route of its upper-case sibling), every
+    # request of the universe answered from the accepted routes only
+    "verbs": consts(ALL7, BADV, REQ8, '{"a"}', PAR3, 1, '{"a","c"}', '{"a"}', 2, ordered=False, badpats=BADP),
+    "verbs3": consts(GPP, BADV, REQ4, '{"a"}', PAR3, 1, '{"a","c"}', '{"a"}', 3, badpats=BADP),
+    "simverbs": consts(ALL7, BADV, REQ8, '{"a","b"}', PAR3, 2, '{"a","b","c"}', '{"a"}', 8, ordered=False, badpats=BADP,
+                       emitall=False),
     # random larger tables, free registration order, two parameter names at depth 1
     "sim8": consts(GPP, '{"FOO"}', REQ4, '{"a","b"}', '<<{"x","w"},{"y"},{"z"}>>', 3, '{"a","b","c"}', '{"a","b"}', 8,
                    ordered=False, badpats=BADP, emitall=False),
@@ -76,10 +95,11 @@ PLANS = {
 def mc(ctx):
     K = {k: v for k, v in PLANS["multi2"].items() if k in ("Methods", "BadMethods", "ReqMethods", "Lits", "ParNames",
                                                            "MaxDepth", "ReqToks", "DirtToks")}
-    K.update(Methods=GP, ReqMethods='{"GET","DELETE"}')
+    # unsupported names of each kind: invented, a case variant of a supported verb (also requested), empty
+    K.update(Methods=GP, ReqMethods='{"GET","DELETE","get"}', BadMethods='{"FOO","get",""}')
     cfg = core.render_cfg(spec="Spec", constants=K,
                           invariants=["TypeOK", "Partition", "CandidatesSound", "Complete", "LiteralWins", "CleanStable",
-                                      "QuietIs404"],
+                                      "QuietIs404", "BadMethodsInert"],
                           properties=["RegisterRule", "RequestsReadOnly"], constraints=["Bound"], view="core")
     ctx.tlc("Router", cfg, constants=K, defs=dict(Bound="Cardinality(table) <= 2"), name="Router-mc", workers=6, timeout=600)
 
@@ -125,7 +145,9 @@ def run(ctx):
         "patterns that repeat a parameter name, unclean pattern spellings at registration and '..' in request paths "
         "are not generated (the statement does not fix their meaning)",
         "where several parameterised patterns match, any of them (with its own binding) is accepted",
-        "an unsupported method is represented by 'FOO'; only error / no error is compared for Handle",
+        "unsupported methods: 'FOO' in the older families; in the verbs families the lower-case and capitalised "
+        "spelling of each of the seven supported verbs, '', CONNECT, TRACE and FOO (method names are compared as exact "
+        "strings, as the router's trees and its request lookup do); only error / no error is compared for Handle",
         "engine tier: api.Server with Config{} and the default middleware chain; bindRoutes stops at the first "
         "rejected route, so tables containing a rejected registration are compared on the bind error only",
     ]
@@ -138,6 +160,7 @@ def run(ctx):
         one(ctx, binp, ebinp, "multi2", "multi2", 1)
         one(ctx, binp, ebinp, "multi3a", "multi3a", 4)
         one(ctx, binp, ebinp, "methods7", "methods7", 4)
+        one(ctx, binp, ebinp, "verbs", "verbs", 4)
         one(ctx, binp, ebinp, "sim8", "sim8", 2, simulate=1500, depth=9)
     else:
         one(ctx, binp, ebinp, "deep3", "deep3", 10)
@@ -146,6 +169,9 @@ def run(ctx):
         one(ctx, binp, ebinp, "multi3", "multi3", 20)
         one(ctx, binp, ebinp, "methods7", "methods7", 4)
         one(ctx, binp, ebinp, "methods7d2", "methods7d2", 10)
+        one(ctx, binp, ebinp, "verbs", "verbs", 4)
+        one(ctx, binp, ebinp, "verbs3", "verbs3", 20)
+        one(ctx, binp, ebinp, "simverbs", "simverbs", 10, simulate=5000, depth=9)
         one(ctx, binp, ebinp, "sim8", "sim8", 10, simulate=20000, depth=9)
         one(ctx, binp, ebinp, "sim12", "sim12", 10, simulate=10000, depth=13)
 
